@@ -385,7 +385,7 @@ class Discovery (EventMixin):
       for t in lldph.tlvs[3:]:
         if t.tlv_type == pkt.lldp.SYSTEM_DESC_TLV:
           # This is our favored way...
-          for line in t.payload.decode().split('\n'):
+          for line in t.payload.decode('utf-8', 'replace').split('\n'):
             if line.startswith('dpid:'):
               try:
                 return int(line[5:], 16)
